@@ -224,3 +224,42 @@ func VH_BuildHostile() {
 		vAssert(w == nil, "C13/data-returned-with-error")
 	}
 }
+
+func init() { vEntries["VH_DecodeFieldValue"] = VH_DecodeFieldValue }
+
+// VH_DecodeFieldValue: a one-filter rule whose field code is any UAPI field (or an unknown code),
+// whose operator word is any valid operator and whose value word is any 32-bit number, decoded with
+// and without name resolution: text or error, never a panic.
+func VH_DecodeFieldValue() {
+	w, err := Build(&SyscallRule{Type: AppendSyscallRuleType, List: "exit", Action: "always", Filters: []FilterSpec{{Type: ValueFilterType, LHS: "pid", Comparator: "=", RHS: "1"}}})
+	vAssert(err == nil, "C13/base-rule-rejected")
+	if err != nil {
+		return
+	}
+	b := append([]byte(nil), w...)
+	names := make([]string, 0, len(vUAPIFields))
+	for k := range vUAPIFields {
+		names = append(names, k)
+	}
+	for i := 1; i < len(names); i++ {
+		for j := i; j > 0 && names[j] < names[j-1]; j-- {
+			names[j], names[j-1] = names[j-1], names[j]
+		}
+	}
+	fi := vChoose("field", len(names)+1)
+	code := uint32(250) // no such field
+	if fi < len(names) {
+		code = vUAPIFields[names[fi]]
+	}
+	vSetLE32(b, vOffFields, code)
+	vSetLE32(b, vOffValues, vU32("value"))
+	opNames := []string{"=", "!=", "<", ">", "<=", ">=", "&", "&="}
+	vSetLE32(b, vOffFieldFlags, vUAPIOps[opNames[vChoose("op", len(opNames))]])
+	resolve := vParam("resolve", 0) != 0
+	txt, err := ToCommandLine(WireFormat(b), resolve)
+	if err != nil {
+		vAssert(txt == "", "C13/text-returned-with-error")
+	} else {
+		vReach("C13/field-value-decoded")
+	}
+}
